@@ -17,7 +17,7 @@ import (
 	"verifharness/ref"
 )
 
-var c10Weights = []weighted{{"deposit", 14}, {"create", 4}, {"role", 3}, {"send", 1}, {"advance", 1}, {"propose", 1}, {"delete", 1}, {"claim", 1}}
+var c10Weights = []weighted{{"deposit", 14}, {"create", 4}, {"role", 3}, {"send", 1}, {"advance", 1}, {"propose", 3}, {"delete", 3}, {"claim", 1}}
 
 // c10AfterCreate: a newly created bridge starts at sequence 1 with nothing recorded under its id.
 func c10AfterCreate(w *l1World, id uint64) error {
